@@ -66,7 +66,7 @@ static const struct { const char *pfx; enum kind k; } KTAB[] = {
     { "pqput", K_PQPUT }, { "pqget", K_PQGET }, { "pqcancel", K_PQCANCEL }, { "pqreprio", K_PQREPRIO },
     { "cwait", K_CWAIT }, { "cwaitb", K_CWAITB }, { "csig", K_CSIG }, { "setx", K_SETX }, { "ccancel", K_CCANCEL },
     { "cremove", K_CREMOVE }, { "csubb", K_CSUBB }, { "cunsubb", K_CUNSUBB }, { "csub", K_CSUB }, { "cunsub", K_CUNSUB }, { "evsched", K_EVSCHED }, { "evcancel", K_EVCANCEL },
-    { "recon", K_RECON }, { "recoff", K_RECOFF }, { "start", K_START }, { "nop", K_NOP },
+    { "recon", K_RECON }, { "recoff", K_RECOFF }, { "restop", K_RESTOP }, { "start", K_START }, { "nop", K_NOP },
     { NULL, K_NOP }
 };
 
@@ -442,6 +442,8 @@ static bool enabled(int p, const struct opdef *od)
         return D.rec_state == 0;
     case K_RECOFF:
         return D.rec_state == 1;
+    case K_RESTOP: /* a second stop, recording being off already: changes nothing */
+        return D.rec_state == 2;
     case K_START:
         return q != p && q < D.P && D.inited[q]
                && (D.pstate[q] == PS_ENDED || D.pstate[q] == PS_CREATED);
@@ -932,6 +934,7 @@ static int64_t do_op(int p, const struct opdef *od)
         ret = cmb_event_cancel(D.envev[q]);
         break;
     case K_RECON:
+    case K_RESTOP:
     case K_RECOFF: {
         const bool on = od->kind == K_RECON;
         D.rec_state = on ? 1 : 2;
